@@ -241,91 +241,81 @@ def r4(ctx):
                   "; ".join(problems))
 
 
-def refusal_classes(test, obs_texts):
-    """which bad-value classes a raising test refuses: subset of {'neg','nan'}; None if unrelated"""
+def refusal_classes_b(b, obs_keys):
+    """which bad-value classes a normalised raising condition refuses: subset of {'neg', 'nan'}.
+    not all(x >= 0) / not all(x > c<=0)  -> {neg, nan}  (NaN compares False)
+    any(x < 0)                            -> {neg}
+    any(isnan(x)) / not all(isfinite(x))  -> {nan}"""
+    from engine.norm import Poly
     out = set()
-
-    def strip_not(e):
-        neg = False
-        while isinstance(e, ast.UnaryOp) and isinstance(e.op, ast.Not):
-            neg = not neg
-            e = e.operand
-        return e, neg
-
-    def is_obs(e):
-        t = U(e).replace(" ", "")
-        return any(t == o or t == f"({o})" for o in obs_texts)
-
-    def reduce_call(e):
-        """(kind 'all'|'any', inner expr) for np.all(x)/x.all()/np.any(x)/x.any()"""
-        if isinstance(e, ast.Call):
-            nm = call_name(e)
-            if nm in ("np.all", "np.any", "all", "any") and e.args:
-                return nm.split(".")[-1], e.args[0]
-            if isinstance(e.func, ast.Attribute) and e.func.attr in ("all", "any") and not e.args:
-                return e.func.attr, e.func.value
-        return None, None
-
-    parts = test.values if isinstance(test, ast.BoolOp) and isinstance(test.op, ast.Or) else [test]
-    for p in parts:
-        e, neg = strip_not(p)
-        kind, inner = reduce_call(e)
-        if kind is None:
-            continue
-        if isinstance(inner, ast.Compare) and len(inner.ops) == 1 and is_obs(inner.left):
-            op = inner.ops[0]
-            r = inner.comparators[0]
-            try:
-                rv = float(ast.literal_eval(r))
-            except Exception:
-                continue
-            if neg and kind == "all" and isinstance(op, (ast.GtE,)) and rv == 0.0:
-                out |= {"neg", "nan"}          # not all(x >= 0): NaN compares False -> refused too
-            elif neg and kind == "all" and isinstance(op, ast.Gt) and rv <= 0.0:
-                out |= {"neg", "nan"}
-            elif not neg and kind == "any" and isinstance(op, ast.Lt) and rv == 0.0:
-                out |= {"neg"}                 # any(x < 0): NaN passes
-        elif isinstance(inner, ast.Call) and call_name(inner) in ("np.isnan",) and inner.args and is_obs(inner.args[0]):
-            if not neg and kind == "any":
-                out |= {"nan"}
-        elif isinstance(inner, ast.Call) and call_name(inner) in ("np.isfinite",) and inner.args and is_obs(inner.args[0]):
-            if neg and kind == "all":
-                out |= {"nan"}
+    if b[0] == "or":
+        for x in b[1]:
+            out |= refusal_classes_b(x, obs_keys)
+        return out
+    negk = [(-Poly(dict(k))).key() for k in obs_keys]
+    if b[0] == "not" and b[1][0] == "all":
+        p = b[1][1]
+        if p[0] == "cmp" and p[1] in ("<=", "<") and p[2] in negk:
+            out |= {"neg", "nan"}                       # not all(x >= 0) / not all(x > 0)
+        if p[0] == "truthy" and _is_fn_of(p[1], "isfinite", obs_keys):
+            out |= {"nan"}
+        if p[0] == "not" and p[1][0] == "truthy" and _is_fn_of(p[1][1], "isnan", obs_keys):
+            out |= {"nan"}                              # any(isnan(x)) canonicalised to not all(not isnan(x))
+    if b[0] == "any":
+        p = b[1]
+        if p[0] == "cmp" and p[1] == "<" and p[2] in obs_keys:
+            out |= {"neg"}                              # any(x < 0): NaN passes
     return out
 
 
+def _is_fn_of(k, fname, obs_keys):
+    """k is the key of a single atom ('fn', fname, key-of-observations)"""
+    try:
+        (mono, coef), = k
+        (atom, pw), = mono
+    except Exception:
+        return False
+    return atom[0] == "fn" and atom[1] == fname and atom[2] in obs_keys
+
+
 def r5(ctx):
+    from engine.astutil import raise_guards
     R = ctx.R
     impls = [q for q in R.overrides("batchie.core.BayesianModel", "_add_observations") if not R.funcs[q].is_abstract]
     ctx.need(len(impls) >= 3, f"only {len(impls)} _add_observations implementations found")
+    N = Norm(strict=False)
     for q in impls:
         f = ctx.fn(q)
         data = [p for p in f.params if p != "self"][0]
         g = CFG(f.node)
-        env = single_defs(f.node)
-        # first ingestion effect: first statement that stores into self.* / calls _update / update / unpack
+        # ingestion effects: stores into self.*, calls that feed the wrapped model
         effects = []
         for n in g.stmts():
             st = n.stmt
             if n.kind == "stmt" and isinstance(st, ast.Assign) and any(isinstance(t, ast.Attribute) and U(t.value) == "self" for t in st.targets):
                 effects.append(n)
-            elif n.kind == "stmt" and isinstance(st, ast.Expr) and isinstance(st.value, ast.Call) and (
-                    attr_tail(st.value) in ("_update", "update", "append", "extend")):
+            elif n.kind == "stmt" and isinstance(st, ast.Expr) and isinstance(st.value, ast.Call) and attr_tail(st.value) in ("_update", "update", "append", "extend"):
                 effects.append(n)
-            elif n.kind == "loop":
-                for c in calls(st):
-                    if attr_tail(c) in ("_update",):
-                        effects.append(n)
+            elif n.kind == "loop" and any(attr_tail(c) == "_update" for c in calls(st)):
+                effects.append(n)
         ctx.need(effects, f"{f.site()}: no ingestion effect found")
         dom = g.dominators()
+        obs_keys = [N.key(parse_expr(f"{data}.observations"))]
         refused = set()
-        obs_texts = [f"{data}.observations"] + [k for k, v in env.items() if U(v) == f"{data}.observations"]
-        for t, arm in g.raising_guards():
-            if arm != "then":
-                continue
-            if not all(t in dom.get(e, ()) for e in effects):
-                continue
-            refused |= refusal_classes(t.stmt.test, obs_texts)
+        from engine.norm import negate
+        guards = [(conds, anchor) for conds, anchor, how, looped in raise_guards(R, f, N) if anchor is not None and not looped]
+        dominating = []
+        for conds, anchor in guards:
+            an = g.nodes_of(anchor)
+            if an and all(an[0] in dom.get(e, ()) for e in effects):
+                dominating.append(conds)
+        singles = {next(iter(c)) for c in dominating if len(c) == 1}
+        for conds in dominating:
+            # in an if/elif chain a later arm carries the negations of the earlier (also raising) tests: those conjuncts
+            # do not weaken the refusal, because their complement raises as well
+            core = [b for b in conds if negate(b) not in singles]
+            if len(core) == 1:
+                refused |= refusal_classes_b(core[0], obs_keys)
         missing = {"neg", "nan"} - refused
         ctx.check("R5", f"{f.site()}::refuses-negative-and-NaN", not missing,
                   "a refusal of negative and NaN observations dominates every ingestion effect",
